@@ -114,9 +114,7 @@ def judge(case):
 
 def on_timeout(case):
     """a case that exceeds the CPU bound is re-run in a fresh process with 20 s; only then it is a verdict"""
-    if region_subdaily_vtimezone_rrule(case):
-        # known non-terminating class (RC-F): the 10 s CPU bound was just exceeded, skip the 20 s confirmation run
-        return [Failure("C04.terminates", "does-not-terminate-within-20s", f"(sub-daily VTIMEZONE RRULE) input={the_input(case)[:300]!r}")]
+
     with tempfile.NamedTemporaryFile("w", suffix=".json", delete=False) as f:
         json.dump({"case": case}, f)
         path = f.name
@@ -283,7 +281,7 @@ def fixture_cases(draw):
     names = sorted(fixtures())
     ops = st.sampled_from(["del", "dup", "dup", "swap", "splice", "splice", "lower", "replace-line", "replace-line"])
     toks = st.sampled_from(TOKENS + ["END:VTIMEZONE", "END:VCALENDAR", "BEGIN:VTIMEZONE", "BEGIN:STANDARD", "END:STANDARD", "TZID:dup", "TZID:Europe",
-                                     "RRULE:COUNT=3", "RRULE:FREQ=DAILY", "DTSTART;VALUE=DATE:20200101", "TZOFFSETTO:+2400", "TZNAME:X", "END:VEVENT"])
+                                     "RRULE:COUNT=3", "RRULE:FREQ=SECONDLY", "RRULE:FREQ=YEARLY;INTERVAL=0", "RRULE:FREQ=MINUTELY;INTERVAL=0", "DTSTART;VALUE=DATE:20200101", "TZOFFSETTO:+2400", "TZNAME:X", "END:VEVENT"])
     muts = draw(st.lists(st.tuples(ops, st.integers(0, 400), st.integers(0, 400), toks).map(list), min_size=1, max_size=8))
     return {"gen": "fixture", "fixture": draw(st.sampled_from(names)), "muts": muts, "truncate": draw(st.sampled_from([0, 0, 0, 1, 7, 40, 300]))}
 
@@ -312,7 +310,7 @@ def hostile_cases(draw):
                     "DTSTART:19701025T030000", "DTSTART;VALUE=DATE:19701025", "DTSTART:19701025T030000Z", "DTSTART:garbage", "TZOFFSETFROM:+0200",
                     "TZOFFSETTO:+0100", "TZOFFSETTO:+2400", "TZOFFSETFROM:-2359", "TZOFFSETFROM:+0200", "TZNAME:CET", "TZNAME:CET", "TZNAME:CEST",
                     "RRULE:FREQ=YEARLY;BYDAY=-1SU;BYMONTH=10", "RRULE:BYDAY=-1SU;BYMONTH=10", "RRULE:FREQ=YEARLY;UNTIL=19801025T010000Z;BYMONTH=10",
-                    "RRULE:FREQ=YEARLY;COUNT=3", "RDATE:19711025T030000", "RDATE;VALUE=DATE:19711025", "RDATE;VALUE=PERIOD:19711025T030000/PT1H",
+                    "RRULE:FREQ=YEARLY;COUNT=3", "RRULE:FREQ=SECONDLY", "RRULE:FREQ=HOURLY;INTERVAL=0", "RRULE:FREQ=YEARLY;INTERVAL=0;BYMONTH=10", "RDATE:19711025T030000", "RDATE;VALUE=DATE:19711025", "RDATE;VALUE=PERIOD:19711025T030000/PT1H",
                     "RRULE:FREQ=YEARLY", "X-FOO:bar", "COMMENT:x", "TZOFFSETTO:+0100", "DTSTART:19701025T030000"]), max_size=7)):
                 body.append(ln)
             body.append(f"END:{kind}")
@@ -358,7 +356,7 @@ def isolate_cases():
 
 
 def streams(tier):
-    n = 400 if tier == "quick" else 30000
+    n = 400 if tier == "quick" else 8000
     return [
         Stream("token-soup", "hyp", n, 12, soup_cases, timeout_s=10),
         Stream("mutated-fixtures", "hyp", n, 16, fixture_cases, timeout_s=10),
